@@ -39,6 +39,8 @@ CONSTANTS
   StructAlwaysGarble,  \* deviation: hashWithStruct always folds in garble's inputs
   MapFieldsByPackage,  \* deviation: commandMap hashes fields with hashWithPackage
   ReverseSkipsTypes,   \* deviation: commandReverse has no *ast.TypeSpec case
+  MapEmbeddedAsField,  \* FALSE as the code has it since the fix of F130; TRUE = before
+  ReverseVarsAndIfaceMethods, \* TRUE as the code has it since the fix of F131/F133; FALSE = before
   GapMapEqBuild,       \* object kinds for which the as-is transcription predicts map # build
   GapReverse           \* object kinds for which the as-is transcription predicts "not reversed"
 
@@ -186,7 +188,9 @@ ListedByMap(o) == Renamed(o) /\ ~LocalScope(o) /\ ApiReachable(o)
 (* the map view asks obfuscatedObjectName about the field object itself (hashWithStruct)         *)
 BuildTerm(o, e) == IF o.kind \in FieldKinds THEN HashWithStruct("S", e, "name")
                    ELSE HashWithPackage("P", e, "name")
-MapTerm(o, e) == IF o.kind \in FieldKinds \cup {"embedded"}
+(* (since the fix of F130 commandMap names an embedded field after its type, like the build;    *)
+(* before - what-if MapEmbeddedAsField - it hashed it as a struct field)                        *)
+MapTerm(o, e) == IF o.kind \in FieldKinds \cup (IF MapEmbeddedAsField THEN {"embedded"} ELSE {})
                  THEN (IF MapFieldsByPackage THEN HashWithPackage("P", e, "name") ELSE HashWithStruct("S", e, "name"))
                  ELSE HashWithPackage("P", e, "name")
 (* commandReverse: FuncDecl and TypeSpec names hashed with the package, named struct fields with  *)
@@ -197,6 +201,8 @@ ReverseTerm(o, e) ==
     [] o.kind \in {"func", "genfunc", "method", "genmethod", "imethod"} -> HashWithPackage("P", e, "name")
     [] o.kind \in FieldKinds -> HashWithStruct("S", e, "name")
     [] o.kind = "embedded" -> IF ReverseSkipsTypes THEN Absent ELSE HashWithPackage("P", e, "name")
+    \* since the fix of F131/F133: package-level *ast.ValueSpec names and methods declared in interface types
+    [] o.kind \in {"var", "imethodlone"} -> IF ReverseVarsAndIfaceMethods THEN HashWithPackage("P", e, "name") ELSE Absent
     [] OTHER -> Absent
 
 MapEqBuildAt(o, e) == SameTerm(MapTerm(o, e), BuildTerm(o, e))
